@@ -764,7 +764,8 @@ func (st *State) dynType(iv Agg, static types.Type) types.Type {
 			}
 			continue
 		}
-		st.end("UNSUPPORTED", "symbolic interface type word %v", tw)
+		// e.g. an interface loaded from a slice at a symbolic index: one fork per feasible type
+		tw = st.concretize(tw, "interface type word")
 	}
 	if tw.V == 0 {
 		return nil
